@@ -229,6 +229,12 @@ func (t *FSTree) readHeader(id oid.ID, f *os.File, buf []byte) ([]byte, io.ReadS
 			if l == 0 {
 				return nil, f, io.ErrUnexpectedEOF
 			}
+			if offset+objectwire.NonPayloadFieldsBufferLength > len(buf) {
+				// the entry starts too close to the buffer end for the
+				// whole window to fit behind it
+				n = copy(buf, buf[offset:n])
+				offset = 0
+			}
 			size := min(offset+int(l), offset+objectwire.NonPayloadFieldsBufferLength)
 			if n < size {
 				_, err = io.ReadFull(f, buf[n:size])
